@@ -387,7 +387,7 @@ func (r *bdnRun) predicate(rng *kc.Rng) bool {
 
 func c09Bdn(c *kc.Ctx, sd *blsSide, rng *kc.Rng, b *blsBatch) {
 	q, qh := sd.q, kc.HexN(sd.q)
-	runs := c.N(5, 40)
+	runs := c.N(6, 100)
 	if sd.env.mock != nil {
 		runs = c.N(150, 3000)
 	}
